@@ -274,6 +274,7 @@ func execC15(spec *RunSpec) *Result {
 				}
 			}
 			if os.Getenv("SIM_DEBUG") != "" {
+				fmt.Fprintf(os.Stderr, "op %d %s %s -> %s\n", i, op.Entry, op.File, out)
 				for name, cv := range view {
 					fmt.Fprintf(os.Stderr, "op %d %s: view[%s]=%+v cur=%d amb=%v reads=%d observed=%v\n", i, op.Entry, name, *cv, cur[name], amb[name], sfs.Reads(i, name), sfs.Observed(i)[name])
 				}
@@ -295,25 +296,33 @@ func execC15(spec *RunSpec) *Result {
 								view[name] = &cacheView{}
 							}
 							m := spec.Files[fileIdx[name]].Versions[v].MtimeNs
-							if !view[name].has || view[name].seenMtime != m {
-								// the cache sees another mtime than before: whatever it held is out of date for it
-								var keep []cacheView
-								if out.IsErr && name != op.File && view[name].has {
-									// ... unless this render failed and the file is a layout: see cacheView.alt
-									old := *view[name]
-									old.alt = nil
-									keep = append(view[name].alt, old)
+							cv := view[name]
+							// every state the cache may have been in for this file before the operation
+							var prior []cacheView
+							if cv.has {
+								main := *cv
+								main.alt = nil
+								prior = append(append(prior, main), cv.alt...)
+							}
+							uncertain := out.IsErr && name != op.File // see cacheView.alt
+							next := cacheView{seenMtime: m, loaded: map[int]bool{}, has: true}
+							for _, st := range prior {
+								if st.seenMtime == m {
+									// a state in which the cache kept seeing this mtime: what was read under it stays relevant
+									for u := range st.loaded {
+										next.loaded[u] = true
+									}
+								} else if uncertain {
+									// the render failed, perhaps before the chain consulted the cache for this layout:
+									// the earlier state stays possible
+									next.alt = append(next.alt, st)
 								}
-								view[name].seenMtime = m
-								view[name].loaded = map[int]bool{}
-								view[name].has = true
-								view[name].alt = keep
-							} else if !out.IsErr {
-								view[name].alt = nil // a successful render went through the cache for this file
 							}
 							if sfs.Reads(i, name) > 0 {
-								view[name].loaded[v] = true
+								next.loaded[v] = true
 							}
+							*cv = next
+
 						}
 					}
 				}
